@@ -113,17 +113,16 @@ Definition cvt_f64_i64 (x : f64) : Z :=
   end.
 
 (** amd64 float64 -> uint64 as the Go compiler emits it: below 2^63 through int64, otherwise
-    int64(x - 2^63) xor 2^63 (NaN compares false and takes the second branch) *)
+    int64(x - 2^63) OR 2^63 (NaN compares false and takes the second branch; the indefinite value is 2^63) *)
 Definition cvt_f64_u64 (x : f64) : Z :=
   match x with
   | B754_zero _ => 0
-  | B754_nan => 0
-  | B754_infinity false => 0
-  | B754_infinity true => 2 ^ 63
+  | B754_nan => 2 ^ 63
+  | B754_infinity _ => 2 ^ 63
   | B754_finite _ _ _ _ =>
       let t := Btrunc x in
       if t <? 2 ^ 63 then wrap U64 (if - 2 ^ 63 <=? t then t else - 2 ^ 63)
-      else let t' := t - 2 ^ 63 in if t' <? 2 ^ 63 then t' + 2 ^ 63 else 0
+      else let t' := t - 2 ^ 63 in if t' <? 2 ^ 63 then t' + 2 ^ 63 else 2 ^ 63
   end.
 
 Definition to_int (e : elem) : Res Z :=                 (* an int64 *)
